@@ -114,3 +114,11 @@ add("C08", "translation_validation",
     "verification functions are compared with the source functions; verify may raise only where Python raises.",
     "Corpus: two authored models covering the invariant forms of the property + the repository's common meta-models except aas_core_meta.v3. Large classes are checked per invariant "
     "(properties the invariant reads symbolic, others fixed). Bounds in evidence. CrossHair's regex model is trusted for pattern functions (witnesses replayed concretely).")
+
+add("C10", "translation_validation",
+    "bounded symbolic execution (CrossHair/z3) of the generated Python SDK's to_jsonable / <class>_from_jsonable on instances with symbolic property values, and of from_jsonable on valid documents with one symbolic mutation; JSON only",
+    "For every concrete class of the corpus (SDK emitted by the REAL generator) an instance with symbolic values is serialized and de-serialized again (directly and through every ancestor that "
+    "dispatches on modelType) and compared field by field; a valid document with ONE mutation at a symbolic position (value of a wrong JSON type, dropped key, renamed key, replaced root) may be "
+    "accepted or rejected, but only DeserializationException may be raised.",
+    "JSON only: the generated xmlization sits on expat, which concretizes every symbolic value, so the XML clause is NOT claimed (see DESIGN.md). Floats are multiples of 0.5, byte arrays 0..2 bytes. "
+    "One open known finding (invalid base64 raises binascii.Error).")
